@@ -316,7 +316,8 @@ def prepare(tier):
             info = core.load_model_info(name)
             MODELS[name] = name
             PARS[name] = {"def": {}, "sb": {"scale": 0.5, "background": 0.2}}
-            pd = sorted(info.parameters.pd_1d)
+            pd = sorted(p_.name for p_ in info.parameters.call_parameters[2:2 + info.parameters.npars]
+                        if p_.polydisperse and p_.type not in ("orientation", "magnetic"))
             if pd:
                 # (some builtin models cost seconds per mesh point: keep the generic meshes tiny)
                 PARS[name]["pd"] = {pd[0] + "_pd": 0.1, pd[0] + "_pd_n": 3}
